@@ -70,7 +70,7 @@ def build_fill_world(repo, it: Interp, sP, sQ, ro, typ):
     ex = W.obj_of(repo, FUT, "FuturesExchange", "exchange", {
         "name": "Sandbox", "type": "futures", "fee_rate": A("f"), "settlement_currency": "USDT",
         "assets": {"USDT": A("Wt"), "BTC": num(0)}, "temp_reduced_amount": {"BTC": A("T"), "USDT": num(0)},
-        "buy_orders": {"BTC": empty()}, "sell_orders": {"BTC": empty()},
+        "buy_orders": {"BTC": empty()}, "sell_orders": {"BTC": empty()}, "symbols": {"BTC": SYM}, "available_assets": {"BTC": num(0), "USDT": A("Wt")},
         "futures_leverage": A("lev"), "futures_leverage_mode": "cross"})
     strat = Obj("Strategy", name="strategy", attrs={"leverage": A("lev"), "timeframe": "1m", "name": "S", "trades_count": num(0)}, open_world=True)
     pos = W.obj_of(repo, POSITION, "Position", "position", {
@@ -84,7 +84,15 @@ def build_fill_world(repo, it: Interp, sP, sQ, ro, typ):
             n = int(t.attrs["index"].const_value()) + 1
             out[side] = [tuple(r.items) for r in t.attrs["array"].rows[:n]]
         return out
-    W.bind(strat, "_on_updated_position", lambda i, a, k: i.event("strategy_hook", pos.attrs["qty"], pos.attrs["previous_qty"], held_rows(i)))
+    def hook(i, a, k):
+        # what a strategy hook does: it looks at the position and - sizing its next order - at the available margin
+        try:
+            am = i.getattr(ex, "available_margin")
+        except NotInFragment as e:
+            am = ("not-interpretable", str(e))
+        i.event("strategy_hook", pos.attrs["qty"], pos.attrs["previous_qty"], held_rows(i), am)
+    W.bind(strat, "_on_updated_position", hook)
+    it.stubs[f"{W.SELECTORS}:get_position"] = lambda i, a, k: pos
     it.held_rows = held_rows
     trades = Obj("ClosedTrades", name="store.completed_trades", attrs={})
     W.bind(trades, "open_trade", lambda i, a, k: i.event("trade", "open_trade"))
@@ -123,7 +131,14 @@ def check_fills(repo, rep):
                         it = Interp(repo, stubs=W.base_stubs(), samples=[dict(x) for x in samples],
                                     nonneg={"P", "Q", "E", "p", "f", "Wt", "T", "cp", "lev"}, decisions=dec)
                         pos, o = build_fill_world(repo, it, sP, sQ, ro, "LIMIT")
-                        return it, lambda it: it.call(it.getattr(pos, "_on_executed_order"), [o], {})
+
+                        def thunk(it):
+                            it.call(it.getattr(pos, "_on_executed_order"), [o], {})
+                            try:
+                                it.am_after = it.getattr(it.ex, "available_margin")
+                            except NotInFragment as e:
+                                it.am_after = ("not-interpretable", str(e))
+                        return it, thunk
                     for out in explore(mk, 64):
                         s = out.interp.samples[0]
                         cell, w_exp, p_exp, e_exp, tr_exp = fill_model(sP, sQ, ro, s)
@@ -142,6 +157,20 @@ def check_fills(repo, rep):
                         tr = [e[1] for e in out.events if e[0] == "trade"]
                         if tr != tr_exp:
                             probs.append(f"trade bookkeeping {tr} != {tr_exp}")
+                        # the available margin read after the fill (the hooks of the fill have read it too - a memo must not outlive the
+                        # ledger it was computed from): wallet - (entry*|size|/leverage - unrealised PnL), nothing rests in this world
+                        am = getattr(out.interp, "am_after", None)
+                        if isinstance(am, R) and isinstance(w_exp, R) and isinstance(p_exp, R):
+                            val_ = lambda r: r.evaluate(lambda a: s[a])
+                            if val_(p_exp) == 0 or e_exp is None:
+                                am_exp = w_exp
+                            else:
+                                sz = p_exp if val_(p_exp) > 0 else -p_exp
+                                am_exp = w_exp - (e_exp * sz / A("lev") - p_exp * (A("cp") - e_exp))
+                            if not am.same(am_exp):
+                                probs.append(f"available margin after the fill is {am!r}, the reference account has {am_exp!r}")
+                        elif isinstance(am, tuple):
+                            rep.undecided_item(f"C03-R1 {env}: available_margin after the fill is not interpretable ({am[1][:80]})")
                         hooks = [i for i, e in enumerate(out.events) if e[0] == "strategy_hook"]
                         if cell == "flip":
                             # two events: the close (the strategy sees size 0) and the opening of the opposite position
